@@ -239,6 +239,11 @@ def run(ctx: core.Ctx, prop: str):
                          nontrivial_key=(cm, before) if changed else None, sample=changed and variant not in ("identity",))
                 replay = {"codemod": cm, "filename": f, "variant": variant, "before": before, "after_first_run": a1,
                           "after_second_run": a2, "tool": s["tool"]}
+                cb, ca = s.get("compiles_before", {}).get(f), s.get("compiles_after1", {}).get(f)
+                if prop == "C01" and cb is True and ca is False and not (changed and e2e.parses(before) and not e2e.parses(a1)):
+                    # judged on the BYTES (coding cookie / BOM honoured): the text-level test below cannot see re-encoding damage
+                    ctx.violation(classify(prop, cm, before, a1, a2), f"{cm} left a file CPython can no longer decode/compile (variant {variant})",
+                                  {**replay, "expected": "compile(bytes after) succeeds when compile(bytes before) did"})
                 if prop == "C01" and changed and e2e.parses(before) and not e2e.parses(a1):
                     ctx.violation(classify(prop, cm, before, a1, a2), f"{cm} left a file that no longer parses (variant {variant})",
                                   {**replay, "expected": "compile(after) succeeds"})
